@@ -1835,7 +1835,7 @@ The theorems above are about the *emitted step*.  This section composes them int
   lifts through the plans of `replace_range` / `replace_range_with` (`replaceRange_valid_delete`,
   `replaceRange_valid_inline_partial`, `replaceRange_valid_of_inv_partial`, `replaceRangeWith_valid_*_partial`);
 * `aroundPayload_of_norm`, `insertInline_valid_of_norm`, `replace_valid_of_inv_of_norm` — `AroundPayload` discharged by
-  `insertAt_openValid` (Proofs/InsertAtValid.lean) for documents in normal form and `textStableB` schemas; what is left
+  `insertAt_openValid` (Proofs/InsertAtValid.lean; no schema condition since `insert_into` validates what it builds); what is left
   for a `ReplaceAroundStep` answer is that its slice is in normal form (`fnorm`, decidable; not proved for the Fitter);
 * `delete_total_valid`, `deleteRange_total_valid`, `insertInline_total_valid_partial` — with the totality theorems: the
   operation does not raise inside `replace_step`, and its `Step.apply` ends in a valid document with the content kept or
@@ -2217,8 +2217,8 @@ theorem wf_of_inlineLeaves (S : Schema) (sl : Slice) (hsl : sl.inlineLeaves S = 
     them is an in-order subsequence of the slice's text (`Kept`).  **Unconditional when the answer is a
     `ReplaceStep`**; for a `ReplaceAroundStep` answer one hypothesis about the step is left (`AroundPayload`).
     FULL STATEMENT (`insertInline_valid`): the same without `hpa`.  Missing: `Slice.insert_at(insert, gap)` keeps
-    `openValid` at `insert > 0` — Proofs/InsertAtValid.lean proves it for closed slices (`insertAt_closed_openValid`,
-    under `FromDom.TextStable`, slice and gap in normal form); the emitted slice is open at the start
+    `openValid` at `insert > 0` — Proofs/InsertAtValid.lean proves it (`insertAt_openValid`; see
+    `insertInline_valid` below); the emitted slice is open at the start
     (`open_start = depth(from)`), and its normal form (`fnorm`) is not proved for the Fitter (the same residual as in
     C04's `DeleteResidual`). -/
 theorem insertInline_valid_partial (S : Schema) (hdet : detB S = true) (hfill : S.fillersOKB = true)
@@ -2343,15 +2343,16 @@ theorem replaceRangeWith_valid_inline_partial (S : Schema) (hdet : detB S = true
   exact replaceRange_valid_inline_partial S hdet hfill hwrap hlab hleaf hts hcl doc doc' f t ⟨[node], 0, 0⟩ cs hv hattrs
     hft (by simp [Slice.wf]) hcs c hc hsl hslv st hst hpa ha
 
-/-- **`aroundPayload_of_norm`** — the residual `AroundPayload` reduced to normal form: on a valid document in normal form,
-    for a schema with `FromDom.textStableB` (a text child does not change what the content automaton accepts next), a
+/-- **`aroundPayload_of_norm`** — the residual `AroundPayload` reduced to normal form: on a valid document, a
     well-formed replace-around answer whose slice is a valid payload **and in normal form** (`fnorm`: no empty text
     nodes, no adjacent text nodes with equal marks) has a valid payload with the gap content in place —
     `Slice.insert_at(insert, gap)` keeps `openValid` at every position (`insertAt_openValid`, Proofs/InsertAtValid.lean:
-    a receiving node that is complete in the slice is checked by `can_replace`, one on an open side is validated by
-    `replace` when the slice is placed), and the gap `[to, to.end())` is a closed slice of valid nodes in normal form -/
-theorem aroundPayload_of_norm (S : Schema) (hst : PM.FromDom.textStableB S = true) (doc : Node) (f t : Nat)
-    (req : Slice) (hv : C01.Valid S doc) (hn : fnorm doc.kids = true) (st : Step)
+    a receiving node that is complete in the slice validates the content that is built — `insert_into` as repaired for
+    finding C01-insert-inside-text —, one on an open side is validated by `replace` when the slice is placed), and the
+    gap `[to, to.end())` is a closed slice of valid nodes.  (Before that repair the statement needed
+    `FromDom.textStableB S` and the normal form of the document.) -/
+theorem aroundPayload_of_norm (S : Schema) (doc : Node) (f t : Nat)
+    (req : Slice) (hv : C01.Valid S doc) (st : Step)
     (h : replaceStep S doc f t req = .ok (some st)) (hwf : StepWF st = true)
     (hp : ∃ sl', st.sliceOf = some sl' ∧ openValid S sl'.openStart sl'.openEnd sl'.content = true)
     (hsn : ∀ sl', st.sliceOf = some sl' → fnorm sl'.content = true) : AroundPayload S doc st := by
@@ -2363,25 +2364,23 @@ theorem aroundPayload_of_norm (S : Schema) (hst : PM.FromDom.textStableB S = tru
   simp only [StepWF, Bool.and_eq_true, decide_eq_true_eq] at hwf
   intro gap res hgap hres
   have hg := fit_around_gap_valid S doc f t req hv F T G1 G2 sl ins b h gap hgap
-  have hgn := (sliceKids_norm doc.kids G1 G2 gap hn hgap).1
-  exact insertAt_openValid S (PM.FromDom.textStable_of_B S hst) sl res ins gap.content hg hgn (hsn sl rfl) hwf.2 hval hres
+  exact insertAt_openValid S sl res ins gap.content hg (hsn sl rfl) hval hres
 
 /-- **`insertInline_valid_of_norm`** — `insertInline_valid_partial` with the residual reduced to the normal form of the
-    emitted slice (a decidable property of the recorded step; the document in normal form, the schema
-    `textStableB`): no payload hypothesis left for either step kind -/
+    emitted slice (a decidable property of the recorded step): no payload hypothesis left for either step kind -/
 theorem insertInline_valid_of_norm (S : Schema) (hdet : detB S = true) (hfill : S.fillersOKB = true)
     (hwrap : S.wrapOKB = true) (hlab : S.labelsOKB = true) (hleaf : PM.FromDom.leafOkB S = true)
-    (hts : textStableC S = true) (hcl : S.closableB = true) (hst : PM.FromDom.textStableB S = true)
+    (hts : textStableC S = true) (hcl : S.closableB = true)
     (doc doc' : Node) (f t : Nat) (sl : Slice)
     (hsl : sl.inlineLeaves S = true) (hslv : sl.closedValid S = true) (hv : C01.Valid S doc)
-    (hn : fnorm doc.kids = true) (hattrs : S.nodeAttrsOK doc = true) (hft : f ≤ t) (st : Step)
+    (hattrs : S.nodeAttrsOK doc = true) (hft : f ≤ t) (st : Step)
     (h : replaceStep S doc f t sl = .ok (some st))
     (hsn : ∀ F T G1 G2 sl' ins b, st = .replaceAround F T G1 G2 sl' ins b → fnorm sl'.content = true)
     (ha : S.apply st doc = .ok doc') :
     C01.Valid S doc' ∧ Kept (ftoks doc.kids) (ftoks doc'.kids) f t (textUnits (sliceToks' sl)) := by
   refine insertInline_valid_partial S hdet hfill hwrap hlab hleaf hts hcl doc doc' f t sl hsl hslv hv hattrs hft st h ?_ ha
   intro F T G1 G2 sl' ins b hst'
-  refine aroundPayload_of_norm S hst doc f t sl hv hn st h
+  refine aroundPayload_of_norm S doc f t sl hv st h
     (insertInline_emits_wf S hdet hfill hwrap doc f t sl hsl hv hattrs hft st h).1
     (insertInline_emits_valid_payload S hdet hfill hwrap hlab hleaf hts hcl doc f t sl hsl hslv hv hattrs st h) ?_
     F T G1 G2 sl' ins b hst'
@@ -2395,10 +2394,9 @@ theorem insertInline_valid_of_norm (S : Schema) (hdet : detB S = true) (hfill : 
     `fitEndInv ≠ some false`, the residual for a replace-around answer reduced to the normal form of its slice -/
 theorem replace_valid_of_inv_of_norm (S : Schema) (hdet : detB S = true) (hfill : S.fillersOKB = true)
     (hleaf : PM.FromDom.leafOkB S = true) (hts : textStableC S = true) (hcl : S.closableB = true)
-    (hst : PM.FromDom.textStableB S = true)
     (doc doc' : Node) (f t : Nat) (sl : Slice) (hwf : sl.wf = true)
     (hslv : openValid S sl.openStart sl.openEnd sl.content = true) (hv : C01.Valid S doc)
-    (hn : fnorm doc.kids = true) (hattrs : S.nodeAttrsOK doc = true) (hft : f ≤ t) (st : Step)
+    (hattrs : S.nodeAttrsOK doc = true) (hft : f ≤ t) (st : Step)
     (h : replaceStep S doc f t sl = .ok (some st))
     (hend : fitEndInv S doc f t sl ≠ some false)
     (hsn : ∀ F T G1 G2 sl' ins b, st = .replaceAround F T G1 G2 sl' ins b → fnorm sl'.content = true)
@@ -2414,7 +2412,7 @@ theorem replace_valid_of_inv_of_norm (S : Schema) (hdet : detB S = true) (hfill 
     rcases hi rf st0 st1 h1 h2 h3 with e | e
     · rw [e] at hst'; cases hst'
     · exact e
-  refine aroundPayload_of_norm S hst doc f t sl hv hn st h hswf
+  refine aroundPayload_of_norm S doc f t sl hv st h hswf
     (fit_emits_valid_payload_of_inv S hdet hfill hleaf hts hcl doc f t sl hslv hattrs st h hend) ?_
     F T G1 G2 sl' ins b hst'
   intro sl2 hs2
@@ -2454,35 +2452,34 @@ theorem insertInline_emits_norm (S : Schema) (doc : Node) (f t : Nat) (sl : Slic
 example : fnorm [Node.text [97] [⟨0, []⟩], Node.text [98] []] = true := by decide
 
 /-- **`insertInline_valid`** — `insertInline_valid_of_norm` with its residual discharged (`fit_emits_norm`): typing
-    into a valid document in normal form yields a valid document and keeps everything outside the range; the
+    into a valid document yields a valid document and keeps everything outside the range; the
     hypotheses are about the schema, the document and the typed slice only -/
 theorem insertInline_valid (S : Schema) (hdet : detB S = true) (hfill : S.fillersOKB = true)
     (hwrap : S.wrapOKB = true) (hlab : S.labelsOKB = true) (hleaf : PM.FromDom.leafOkB S = true)
-    (hts : textStableC S = true) (hcl : S.closableB = true) (hst : PM.FromDom.textStableB S = true)
+    (hts : textStableC S = true) (hcl : S.closableB = true)
     (doc doc' : Node) (f t : Nat) (sl : Slice)
     (hsl : sl.inlineLeaves S = true) (hslv : sl.closedValid S = true) (hsn : fnorm sl.content = true)
     (hv : C01.Valid S doc)
-    (hn : fnorm doc.kids = true) (hattrs : S.nodeAttrsOK doc = true) (hft : f ≤ t) (st : Step)
+    (hattrs : S.nodeAttrsOK doc = true) (hft : f ≤ t) (st : Step)
     (h : replaceStep S doc f t sl = .ok (some st))
     (ha : S.apply st doc = .ok doc') :
     C01.Valid S doc' ∧ Kept (ftoks doc.kids) (ftoks doc'.kids) f t (textUnits (sliceToks' sl)) :=
-  insertInline_valid_of_norm S hdet hfill hwrap hlab hleaf hts hcl hst doc doc' f t sl hsl hslv hv hn hattrs hft st h
+  insertInline_valid_of_norm S hdet hfill hwrap hlab hleaf hts hcl doc doc' f t sl hsl hslv hv hattrs hft st h
     (fun _ _ _ _ sl' _ _ e => fit_emits_norm S doc f t sl hsn st h sl' (by rw [e]; rfl)) ha
 
 /-- **`replace_valid_of_inv`** — `replace_valid_of_inv_of_norm` with its residual discharged (`fit_emits_norm`): the
     request slice in normal form instead of a hypothesis about the emitted step -/
 theorem replace_valid_of_inv (S : Schema) (hdet : detB S = true) (hfill : S.fillersOKB = true)
     (hleaf : PM.FromDom.leafOkB S = true) (hts : textStableC S = true) (hcl : S.closableB = true)
-    (hst : PM.FromDom.textStableB S = true)
     (doc doc' : Node) (f t : Nat) (sl : Slice) (hwf : sl.wf = true)
     (hslv : openValid S sl.openStart sl.openEnd sl.content = true) (hsn : fnorm sl.content = true)
     (hv : C01.Valid S doc)
-    (hn : fnorm doc.kids = true) (hattrs : S.nodeAttrsOK doc = true) (hft : f ≤ t) (st : Step)
+    (hattrs : S.nodeAttrsOK doc = true) (hft : f ≤ t) (st : Step)
     (h : replaceStep S doc f t sl = .ok (some st))
     (hend : fitEndInv S doc f t sl ≠ some false)
     (ha : S.apply st doc = .ok doc') :
     C01.Valid S doc' ∧ Kept (ftoks doc.kids) (ftoks doc'.kids) f t (textUnits (sliceToks' sl)) :=
-  replace_valid_of_inv_of_norm S hdet hfill hleaf hts hcl hst doc doc' f t sl hwf hslv hv hn hattrs hft st h hend
+  replace_valid_of_inv_of_norm S hdet hfill hleaf hts hcl doc doc' f t sl hwf hslv hv hattrs hft st h hend
     (fun _ _ _ _ sl' _ _ e => fit_emits_norm S doc f t sl hsn st h sl' (by rw [e]; rfl)) ha
 
 /-! ## The emitted step applies (first sentence of C11): deletions that fit trivially
